@@ -4,11 +4,12 @@ import sys
 import time
 
 from . import harness as H
+from . import c13 as H13
 
 CHECKS = {
-    **{f"C03:numpy-{K}": (lambda K=K: H.chk_numpy(K, exclude_kids=("Count",) if K in ("UntypedLabel", "Branch") else ())) for K in H.CLASSES},
-    "C03:numpy-UntypedLabel-count-first": lambda: H.chk_numpy("UntypedLabel", only_kids=("Count",)),
-    "C03:numpy-Branch-count-first": lambda: H.chk_numpy("Branch", only_kids=("Count",)),
+    **{f"C03:numpy-{K}": (lambda K=K: H.chk_numpy(K, exclude_kids=("Count", "CountT") if K in ("UntypedLabel", "Branch") else ())) for K in H.CLASSES},
+    "C03:numpy-UntypedLabel-count-first": lambda: H.chk_numpy("UntypedLabel", only_kids=("Count", "CountT")),
+    "C03:numpy-Branch-count-first": lambda: H.chk_numpy("Branch", only_kids=("Count", "CountT")),
     "C11:pickle": lambda: H.chk_pickle(),
     "C16:sharing": lambda: H.chk_sharing(),
     "C06:Bag.json": lambda: H.chk_tojson_frame("Bag"),
@@ -18,6 +19,7 @@ CHECKS = {
     "C15:Bag.json": lambda: H.chk_c15("Bag"),
     "C09:Bag.__eq__": lambda: H.chk_eq("Bag", "sound") or H.chk_eq("Bag", "complete") or H.chk_eq("Bag", "no-raise") or H.chk_eq("Bag", "sound", True) or H.chk_eq("Bag", "complete", True) or H.chk_eq("Bag", "no-raise", True),
     "C06:Bag.__eq__": lambda: H.chk_frame("Bag", "__eq__") or H.chk_frame("Bag", "__ne__"),
+    **H13.CHECKS,
     "C17:string-expr": lambda: H.chk_c17("string-expr"),
     "C17:wrappers": lambda: H.chk_c17("orders") or H.chk_c17("second-name") or H.chk_c17("cached-call"),
 }
